@@ -164,6 +164,9 @@ TABLE = [
     ('"2025-03-09" in [r.day for r in dated]', True), ('date in [r.iso for r in dated]', True), ('date not in [r.iso for r in dated]', False), ('"2025-03-11" in [r.day for r in dated]', False),
     ('date in [r.day for r in dated]', True), ('any(r.day == "2025-03-09" for r in dated)', True),
     ('"MOUSE" in [r.item for r in orders] and any(r.item == "MOUSE" for r in orders)', True), ('2 in [r.qty for r in orders]', True), ('9 in [r.qty for r in orders]', False),
+    # the reference's "orders within 3 days": the difference of two dates is a number of days
+    ('[r.kind for r in dated if abs(r.day - txn.date) <= 3]', ['ach', 'WIRE']), ('[r.kind for r in dated if r.day - date >= 1]', ['ach']), ('date - date == 0', True),
+    ('[r.day - date for r in dated]', [1, 0]), ('len([r for r in dated if abs(r.day - txn.date) <= 0])', 1),
     ('"a" in [r.id for r in empty]', False), ('field.kind in [r.kind for r in dated]', True), ('field.kind not in [r.kind for r in dated]', False),
 ]
 
